@@ -37,6 +37,12 @@ type replayOutcome struct {
 
 var replayMemo = map[string]replayOutcome{}
 
+// replayCases: number of candidate inputs actually executed on the real code, per obligation
+var replayCases = map[string]int{}
+
+// boundedOK: bounded stand-ins that ran and found no failing input (reported in the evidence, never as proved)
+var boundedOK []map[string]any
+
 // cval is a concrete value of a Go type.
 type cval struct {
 	t      types.Type
@@ -757,6 +763,7 @@ func replayViolation(dir, prop string, r *oblResult, repo, verif string) (string
 	results, raw := rc.runTest(repo, work, src)
 	note["test_file"] = filepath.Join(work, "zz_verif_replay_test.go")
 	note["cases_run"] = len(results)
+	replayCases[r.O.Name] = len(results)
 	if len(results) == 0 {
 		note["status"] = "replay test produced no cases"
 		note["test_output"] = truncate(raw, 3000)
